@@ -96,7 +96,9 @@ CHECKS["C13"] = dict(
 CHECKS["C06"] = dict(
     category="proof", design_ref="DESIGN.md §6 C06", engine="exec (real clock)",
     technique="Lean 4 theorems on the executable keyspace model (lazy expiry check = live view; deadline laws) and generic congruence for block programs + real-clock differential batches that isolate the lazy-expiry window",
-    text="Props/C06.lean proves, for the model the driver runs, that the expiry check makes the probed key's physical entry equal to its live view and "
+    text="Props/C06Table.lean proves c06_congruence for EVERY command of the model's table (77 commands, through Exec.exec itself): two well-formed keyspaces with "
+         "the same live view give the same reply and live-equal results, lifted to programs with a non-decreasing clock — no command can tell an expired-but-present "
+         "key from an absent one. Props/C06.lean proves that the expiry check makes the probed key's physical entry equal to its live view and "
          "changes nothing observable, that a key is visible exactly until its deadline, and the TTL/PERSIST/EXPIRE(NX/XX/GT/LT)/SET(KEEPTTL) laws; "
          "Ttl.congruence/program_refines prove the general statement for block programs. The tie runs batches of hundreds of scenarios on the real clock "
          "with deadlines placed so that for ~0.8 s only the lazy check can hide the key, probing with every reading and writing command, and compares "
